@@ -77,7 +77,7 @@ func vC16Oracle(prog, impl []string) (string, string) {
 func TestVerifC16(t *testing.T) {
 	model := vStartModel(t)
 	defer model.Close()
-	res := vNewResult("C16", "logs with ConcurrencyControl: (a) every arrival order of every multiset of <= 4 publishes with expected offsets from {-1,0,1,2,7} (exhaustive), "+
+	res := vNewResult("C16", "logs with ConcurrencyControl: (a) every arrival order of every multiset of <= 4 publishes with expected offsets from {-1,-2,0,1,2,7} (exhaustive), "+
 		"(b) random histories of up to 40 publishes with expected in {-1, next, next-1, next+1, stale, far} on MaxSegmentBytes in {1,100,1<<20}, with reopen and batches > 1 mixed in; "+
 		"each followed by a full read-back; compared with the Lean model and with the property's oracle; non-trivial = at least one accepted and one rejected publish; distinct by program text")
 	defer res.Write(t)
@@ -117,7 +117,7 @@ func TestVerifC16(t *testing.T) {
 	}
 
 	// (a) exhaustive arrival orders
-	exps := []int64{-1, 0, 1, 2, 7}
+	exps := []int64{-1, -2, 0, 1, 2, 7}
 	var rec func(seq []int64)
 	rec = func(seq []int64) {
 		if len(seq) > 0 {
@@ -165,6 +165,9 @@ func TestVerifC16(t *testing.T) {
 				e = int64(rnd.Intn(int(next) + 1))
 			case 6:
 				e = next + 100
+				if rnd.Bool() {
+					e = -2 - int64(rnd.Intn(5)) // below the waiver sentinel: never the assigned offset
+				}
 			}
 			if e == -1 || e == next {
 				next++
